@@ -116,12 +116,12 @@ static void del_tag(Tags& t, const std::string& k) { for (size_t i = 0; i < t.si
 
 // 4. the initialisation entry points: the switch written in the file decides whether the cells handed to the solver are the surfaces of the mesh file or re-triangulated ones, and the
 // XML entry point behaves exactly like the structure entry point fed with what the reader returns for the same file
-static std::string octa_vtk(int ncell) {
+static std::string octa_vtk(int ncell, bool type_is_index = false) {
     std::ostringstream o; o << "# vtk DataFile Version 4.2\nvtk output\nASCII\nDATASET UNSTRUCTURED_GRID\nPOINTS " << 6 * ncell << " float\n";
     double P[6][3] = {{1, 0, 0}, {-1, 0, 0}, {0, 1, 0}, {0, -1, 0}, {0, 0, 1}, {0, 0, -1}}; for (int c = 0; c < ncell; c++) { for (int i = 0; i < 6; i++) o << P[i][0] + 3.5 * c << " " << P[i][1] << " " << P[i][2] << " "; o << "\n"; }
     int T[8][3] = {{0, 2, 4}, {2, 1, 4}, {1, 3, 4}, {3, 0, 4}, {2, 0, 5}, {1, 2, 5}, {3, 1, 5}, {0, 3, 5}};
     o << "\nCELLS " << ncell << " " << 34 * ncell << "\n"; for (int c = 0; c < ncell; c++) { o << "33 8 "; for (auto& t : T) o << "3 " << t[0] + 6 * c << " " << t[1] + 6 * c << " " << t[2] + 6 * c << " "; o << "\n"; }
-    o << "\nCELL_TYPES " << ncell << "\n"; for (int c = 0; c < ncell; c++) o << "42\n"; o << "\nCELL_DATA " << ncell << "\nFIELD FieldData 1\ncell_type_id 1 " << ncell << " int\n"; for (int c = 0; c < ncell; c++) o << "0 "; o << "\n"; return o.str(); }
+    o << "\nCELL_TYPES " << ncell << "\n"; for (int c = 0; c < ncell; c++) o << "42\n"; o << "\nCELL_DATA " << ncell << "\nFIELD FieldData 1\ncell_type_id 1 " << ncell << " int\n"; for (int c = 0; c < ncell; c++) o << (type_is_index ? c : 0) << " "; o << "\n"; return o.str(); }
 struct InitOut { bool threw = false; std::string what; bool flag = false; std::vector<std::pair<unsigned, unsigned>> counts; };
 static std::string check_initialisation(Result& R, long& cases) {
     char buf[400]; const std::string mesh_path = sw::scratch_root() + "/c18_in.vtk";
@@ -144,6 +144,16 @@ static std::string check_initialisation(Result& R, long& cases) {
                     if (!flag && !as_file) { snprintf(buf, sizeof buf, "run-not-governed-by-the-written-value: perform_initial_triangulation written 0, yet cell %d handed to the solver by the %s has %u nodes and %u faces (mesh file: 6 and 8)", c, en, o.counts[c].first, o.counts[c].second); return buf; }
                     if (flag && o.counts[c].second <= 8) { snprintf(buf, sizeof buf, "run-not-governed-by-the-written-value: perform_initial_triangulation written 1, yet cell %d handed to the solver by the %s is still the surface of the mesh file (%u nodes, %u faces)", c, en, o.counts[c].first, o.counts[c].second); return buf; } } }
             if (out[flag][0].counts != out[flag][1].counts) { snprintf(buf, sizeof buf, "run-not-governed-by-the-written-value: with switch %d the XML entry point and the structure entry point initialise different cells from the same file (first cell %u/%u faces)", flag, out[flag][0].counts[0].second, out[flag][1].counts[0].second); return buf; } } }
+    // the global_cell_id written for a cell type decides what kind of cell is built from it: one cell of each of the five ids, both entry points
+    { { std::ofstream f(mesh_path); f << octa_vtk(5, true); } Doc d = make_doc(5, 3, 0, -1); set_tag(d.num, "input_mesh_file_path", mesh_path); set_tag(d.num, "output_mesh_folder_path", sw::scratch_root() + "/c18_out"); set_tag(d.num, "perform_initial_triangulation", "0"); set_tag(d.num, "min_edge_length", "0.35"); set_tag(d.num, "contact_cutoff_adhesion", "0.05"); set_tag(d.num, "contact_cutoff_repulsion", "0.05");
+      std::string xml = to_xml(d, 0); if (g_R) g_R->distinct_case(xml + "|kinds"); { std::ofstream f(g_path); f << xml; }
+      for (int entry = 0; entry < 2; entry++) { cases++; try { std::unique_ptr<simulation_initializer> si; srand(12345); simucell3d_verif::reset_rng_counters();
+            if (entry == 0) si.reset(new simulation_initializer(g_path, false)); else { parameter_reader rd(g_path); global_simulation_parameters sp = rd.read_numerical_parameters(); auto types = rd.read_biomechanical_parameters(); si.reset(new simulation_initializer(sp, types, false)); }
+            auto cl = si->get_cell_lst(); if (cl.size() != 5) { snprintf(buf, sizeof buf, "run-not-governed-by-the-written-value: 5 cells in the mesh file, %zu initialised", cl.size()); return buf; }
+            for (int i = 0; i < 5; i++) { cell* c = cl[i].get(); const char* kind = dynamic_cast<epithelial_cell*>(c) ? "epithelial" : dynamic_cast<ecm_cell*>(c) ? "ecm" : dynamic_cast<lumen_cell*>(c) ? "lumen" : dynamic_cast<nucleus_cell*>(c) ? "nucleus" : dynamic_cast<static_cell*>(c) ? "static" : "unknown";
+                static const char* want[5] = {"epithelial", "ecm", "lumen", "nucleus", "static"}; const bool want_static = (i == 1 || i == 4);
+                if (std::string(kind) != want[i] || c->is_static() != want_static || c->get_cell_type_id() != i) { snprintf(buf, sizeof buf, "run-not-governed-by-the-written-value: global_cell_id %d (%s) builds a %s cell (static: %d, type id %d) through the %s", i, want[i], kind, (int)c->is_static(), (int)c->get_cell_type_id(), entry ? "structure entry point" : "XML entry point"); return buf; } }
+        } catch (std::exception& e) { snprintf(buf, sizeof buf, "INTERNAL initialisation of the five kinds threw: %s", e.what()); return buf; } } }
     return ""; }
 
 static void explore(Result& R) {
